@@ -306,3 +306,74 @@ class InitPotForwards:
 
 register(Obligation(name="C12.init_pot.parameters_reach_the_potential", prop=PROP, engine="Z", functions=["eminus.potentials:init_pot", "eminus.scf:SCF.pot_params"], run=InitPotForwards(),
                     doc="init_pot hands scf and the user's parameter dictionary on to the selected potential unchanged (dispatcher frame on the AST; native evaluation with non-integral parameters)"))
+
+
+# ------------------------------------------------------------------------------------------------
+# bounded: the potentials of real multi-species systems in non-symmetric cells
+# ------------------------------------------------------------------------------------------------
+
+
+class PotentialsOfRealSystems:
+    """BOUNDED: SCF objects of real systems (species orders H,H,O / O,H,H / H,H,Li / Li,H; hexagonal and triclinic cells with a non-symmetric lattice matrix):
+    (a) every species of SCF.gth carries the parameter set of ITS valence charge; (b) Vloc is the sum of the potentials of the single atoms; (c) the potential
+    of one atom placed on a grid point is the potential of the atom at the origin shifted by that grid vector (charges sit AT the atom positions for any
+    cell shape); for the GTH, Coulomb and long-range Coulomb potentials."""
+
+    def problems(self):
+        import eminus
+        from eminus import SCF, Atoms
+
+        eminus.config.backend = "numpy"
+        eminus.config.verbose = "critical"
+        bad = []
+        cells = {"hexagonal": 7.0 * np.array([[1.0, 0.0, 0.0], [-0.5, np.sqrt(3) / 2, 0.0], [0.0, 0.0, 1.3]]), "triclinic": np.array([[7.0, 0.0, 0.0], [1.5, 7.5, 0.0], [0.8, 1.9, 8.0]])}
+        for cname, a in cells.items():
+            s = [8, 9, 10]
+            for pot in ("gth", "coulomb", "lr"):
+                def vloc(atom, pos):
+                    at = Atoms(atom, pos, ecut=3, a=a)
+                    at.s = s
+                    return SCF(at, pot=pot, verbose="critical")
+
+                # (c) one atom on the grid point with indices (2, 5, 3)
+                idx = np.array([2, 5, 3])
+                p = (idx / np.array(s)) @ a
+                v0 = np.asarray(vloc(["O"], [[0.0, 0.0, 0.0]]).Vloc).reshape(s)
+                v1 = np.asarray(vloc(["O"], [p]).Vloc).reshape(s)
+                d = float(np.abs(v1 - np.roll(v0, tuple(idx), axis=(0, 1, 2))).max() / np.abs(v0).max())
+                if d > 1e-10:
+                    bad.append(dict(cell=cname, pot=pot, clause="potential of an atom on a grid point vs the shifted potential of the atom at the origin", relative_deviation=d))
+                # (a), (b) species orders
+                for atom in (["H", "H", "O"], ["O", "H", "H"], ["H", "H", "Li"], ["Li", "H"]):
+                    pos = (np.array([[1, 2, 1], [3, 1, 4], [5, 6, 2]])[: len(atom)] / np.array(s)) @ a + 0.13
+                    scf = vloc(atom, pos)
+                    if pot == "gth":
+                        for sp in set(atom):
+                            z = int(np.asarray(scf.atoms.Z)[atom.index(sp)])
+                            if int(scf.gth[sp]["Zion"]) != z:
+                                bad.append(dict(cell=cname, atoms=atom, clause="parameter set of the species", species=sp, valence_charge_of_the_atom=z, Zion_of_the_stored_set=int(scf.gth[sp]["Zion"])))
+                    parts = sum(np.asarray(vloc([atom[i]], [pos[i]]).Vloc) for i in range(len(atom)))
+                    d = float(np.abs(np.asarray(scf.Vloc) - parts).max() / np.abs(parts).max())
+                    if d > 1e-10:
+                        bad.append(dict(cell=cname, pot=pot, atoms=atom, clause="Vloc vs the sum of the single-atom potentials", relative_deviation=d))
+        return bad
+
+    def __call__(self, ob, tier, seed):
+        from pycv.framework import BOUNDED_OK
+
+        try:
+            bad = self.problems()
+        except Exception as e:  # noqa: BLE001
+            bad = [dict(raised=f"{type(e).__name__}: {e}")]
+        if bad:
+            return Result(REFUTED, backend="native", witness=bad[0], replayed=True, replay_info=dict(failing=bad[:6]), detail=f"potentials of real systems: {bad[0]}")
+        return Result(BOUNDED_OK, backend="native", detail="bounded: 2 non-symmetric cells x 3 potentials x 4 species orders: parameter sets per species, superposition, atom on a grid point = shifted potential")
+
+    def replay(self, wit):
+        bad = self.problems()
+        return bool(bad), dict(failing=bad[:6])
+
+
+register(Obligation(name="C12.potentials.real_systems_nonsymmetric_cells", prop=PROP, engine="B", bounded=True, run=PotentialsOfRealSystems(),
+                    functions=["eminus.gth:GTH.__init__", "eminus.gth:init_gth_loc", "eminus.potentials:coulomb", "eminus.potentials:coulomb_lr", "eminus.atoms:Atoms._sample_unit_cell"],
+                    doc="BOUNDED: parameter sets per species, superposition over the atoms and centring at the atom positions for real systems in hexagonal / triclinic cells"))
